@@ -54,6 +54,12 @@ def k_sim(method, a, b):
     return float(a @ b) / (na * nb)
 
 
+def tok_pos(t, nc):
+    """0-based position of token t's condition pair in the source condensed vector"""
+    i, j = (t % 100) // 10, t % 10
+    return (i - 1) * nc - (i - 1) * i // 2 + (j - i) - 1
+
+
 def to_float(val):
     v = np.array(val, dtype=float)
     v[v < 0] = np.nan
@@ -74,6 +80,8 @@ def make_rdms(val, nc, flavour=('list', 'int')):
 
 def _case(rec, **kw):
     d = {'by': rec['by'], 'meth': rec['meth'], 'val': rec['val']}
+    if rec.get('api') == 'cv':
+        d['api'], d['fold_case'] = 'cv', rec['case']
     d.update(kw)
     return d
 
@@ -91,16 +99,37 @@ def check_stack(rec, cands, xfs, nc, rng, n_random=200, flavour=('list', 'int'))
     d_or = (lambda cl: 'd/masked' if masked else cl)
     rd = make_rdms(val, nc, flavour)
     out = []
-    stats = {'margin': -np.inf, 'lo_minus_up': -np.inf, 'n_cand': 0}
+    stats = {'margin': -np.inf, 'lo_minus_up': -np.inf, 'n_cand': 0, 'degenerate': False}
+    api = rec.get('api', 'boot')
+    fn = 'boot_noise_ceiling' if api == 'boot' else 'cv_noise_ceiling'
     try:
-        lo, up = boot_noise_ceiling(rd, method=m, rdm_descriptor=by)
+        if api == 'boot':
+            lo, up = boot_noise_ceiling(rd, method=m, rdm_descriptor=by)
+        else:
+            from rsatoolbox.inference.noise_ceiling import cv_noise_ceiling
+            _, test_set, ceil_set = CVS.call_generator(rec['case'], rd, flavour)
+            lo, up = cv_noise_ceiling(rd, ceil_set, test_set, method=m, pattern_descriptor=(rec['case']['byP'] or 'index'))
         pooled = pool_rdm(rd, method=m)
+    except S.DrawMismatch as ex:
+        from harness.core import MachineryError
+        raise MachineryError(f'shuffle mismatch: {ex}')
     except Exception as ex:
-        out.append((f'C07/raises/boot_noise_ceiling/{m}/{type(ex).__name__}', f'{type(ex).__name__}: {ex}', _case(rec)))
+        out.append((f'C07/raises/{fn}/{m}/{type(ex).__name__}', f'{type(ex).__name__}: {ex}', _case(rec)))
         return out, 1, stats
     lo, up = float(lo), float(up)
     n_eval = 1
     singleton = all(f['nt'] == 1 for f in rec['loo'])
+    # ---- degenerate: a pool whose normalised rows cancel (e.g. two exactly anti-correlated RDMs) is the zero
+    # vector; its direction - and with it every similarity to it - is rounding noise.  No value is demanded there.
+    def zero_pool(stat):
+        v = k_pool(stat)
+        if m in ('corr', 'corr_cov'):
+            v = v - v.mean()
+        if m == 'rho-a':
+            return False            # exact half-integers: a constant mean-rank vector scores exactly 0
+        return np.sqrt(v @ v) < 1e-9
+    degenerate = zero_pool(rec['all']) or any(zero_pool(f['stat']) for f in rec['loo'])
+    stats['degenerate'] = bool(degenerate)
     # ---- the pooled RDM is Pool(method, rows): Normalise, then NaN-aware mean (rank BEFORE mean)
     pv = pooled.get_vectors()[0]
     kp = k_pool(rec['all'])
@@ -117,10 +146,17 @@ def check_stack(rec, cands, xfs, nc, rng, n_random=200, flavour=('list', 'int'))
         out.append((f'C07/{d_or("a")}/pool_rdm/{m}/value', 'pool_rdm differs from NanMean o Normalise of the specification',
                     _case(rec, pooled=got.tolist(), spec=kp.tolist())))
     # ---- the bounds are the leave-one-out / pooled similarities (value oracle; cosine, corr, rho-a)
-    if m in OPT:
-        ku = np.mean([np.mean([k_sim(m, kp, val[r - 1][present]) for r in f['test']]) for f in rec['loo']])
-        kl = np.mean([np.mean([k_sim(m, k_pool(f['stat']), val[r - 1][present]) for r in f['test']]) for f in rec['loo']])
-        if m == 'rho-a':
+    if m in OPT and not degenerate:
+        full = np.full(L, np.nan)
+        full[present] = kp
+
+        def at(f):
+            # positions (in the source condensed vector) of the fold's test entries that are present
+            pos = np.array([tok_pos(t, nc) for t in f['tt'] if t != S.NAN], dtype=int)
+            return pos[~np.isnan(val[0][pos])]
+        ku = np.mean([np.mean([k_sim(m, full[at(f)], val[r - 1][at(f)]) for r in f['test']]) for f in rec['loo']])
+        kl = np.mean([np.mean([k_sim(m, k_pool(f['stat']), val[r - 1][at(f)]) for r in f['test']]) for f in rec['loo']])
+        if m == 'rho-a' and api == 'boot':
             n = len(present)
             el = np.mean([3.0 * f['rho'] / (f['nt'] * (n ** 3 - n)) for f in rec['loo']])
             eu = np.mean([3.0 * f['rhoUp'] / (f['nt'] * (n ** 3 - n)) for f in rec['loo']])
@@ -128,15 +164,15 @@ def check_stack(rec, cands, xfs, nc, rng, n_random=200, flavour=('list', 'int'))
                 from harness.core import MachineryError
                 raise MachineryError(f'kernel disagrees with the exact rho-a value of the specification: {rec}')
         if abs(up - ku) > TOL:
-            out.append((f'C07/{d_or("a")}/boot_noise_ceiling/{m}/upper-value',
+            out.append((f'C07/{d_or("a")}/{fn}/{m}/upper-value',
                         'upper bound is not the average similarity of Pool(all RDMs) to the data RDMs',
                         _case(rec, upper=up, spec=float(ku))))
         if abs(lo - kl) > TOL:
-            out.append((f'C07/{d_or("b")}/boot_noise_ceiling/{m}/lower-value',
+            out.append((f'C07/{d_or("b")}/{fn}/{m}/lower-value',
                         'lower bound is not the average over left-out groups of sim(Pool(other groups), left-out RDMs)',
                         _case(rec, lower=lo, spec=float(kl))))
     # ---- a: the pooled RDM attains the bound, no candidate is above it
-    if singleton and m in OPT:
+    if singleton and m in OPT and api == 'boot':
         att = float(np.mean(compare(pooled, rd, method=m)))
         if abs(att - up) > 1e-12:
             out.append((f'C07/{d_or("a")}/pooled-does-not-attain-upper/{m}', 'mean compare(pool_rdm(data), data) differs from the upper bound',
@@ -172,8 +208,10 @@ def check_stack(rec, cands, xfs, nc, rng, n_random=200, flavour=('list', 'int'))
     if singleton and m in ORD:
         stats['lo_minus_up'] = lo - up
         if lo > up + TOL:
-            out.append((f'C07/{d_or("c")}/lower-above-upper/{m}', 'lower noise ceiling exceeds the upper one',
-                        _case(rec, lower=lo, upper=up)))
+            where = '' if api == 'boot' else \
+                ('cv_noise_ceiling/pattern-subset/' if any(len(f['tt']) < L for f in rec['loo']) else 'cv_noise_ceiling/all-conditions/')
+            out.append((f'C07/{d_or("c")}/{where}lower-above-upper/{m}', 'lower noise ceiling exceeds the upper one',
+                        _case(rec, lower=lo, upper=up, api=api, fold_case=rec.get('case'))))
     # ---- e: invariance to per-RDM positive rescaling (cosine type) / affine maps (correlation type)
     for t in xfs:
         v2 = np.array([(t[r][0] * val[r] + t[r][1]) / t[r][2] for r in range(nr)])
@@ -441,6 +479,9 @@ def record_trace(seed, const, kind):
     flavour = S.FLAVOURS[seed % 4]
     methods = ['cosine', 'corr', 'rho-a', 'cosine_cov', 'corr_cov']
     meth = methods[int(rng.integers(0, 5))]
+    if kind != 'boot-val':
+        # token rows are affine images of each other: only the cosine-type poolings keep different pools apart
+        meth = 'cosine_cov' if meth.endswith('_cov') else 'cosine'
     by = str(rng.choice(['index', 'subj', 'grp']))
     if kind == 'boot-val':
         nr = int(rng.integers(2, NR + 1))
@@ -516,8 +557,12 @@ def record_trace(seed, const, kind):
     hdr['single'] = bool(hdr['api'] == 'boot' and len(set(col)) == len(col) and len(col) > 1)
     hdr['exact'] = bool(kind == 'boot-val' and hdr['single'])
     items = assemble(tap, tokens_of)
-    if len(items) % 2 or any(it['deps'] is None for it in items):
+    if len(items) % 2 or any(not it['opts'] for it in items):
         return {'hdr': hdr, 'ev': [], 'error': 'prediction-not-from-pool_rdm'}
+    if any(len(it['opts']) > 1 for it in items):
+        return {'hdr': hdr, 'ev': [], 'skip': 'ambiguous'}     # two different pools returned identical RDMs
+    for it in items:
+        it['deps'] = next(iter(it['opts']))
     all_tok = tokens_of(snap(src))
     ev = []
     # pair the compare calls per fold: the code scores lower and upper for the same test data in turn
